@@ -179,6 +179,9 @@ pub fn build_cmd(c: &Value) -> Command {
     if c["version"].as_bool().unwrap() {
         cmd = cmd.version("1.0");
     }
+    if let Some(w) = c["term_width"].as_u64().filter(|w| *w > 0) {
+        cmd = cmd.term_width(w as usize);
+    }
     let s = &c["s"];
     let on = |k: &str| s[k].as_bool().unwrap_or(false);
     // only call a setter when it is on: the global ones use global_setting and must not be unset here
